@@ -28,8 +28,9 @@ META = {
  'C02': dict(
   level='proof',
   text="Proof: one postcondition per displayed key of PH, UH, EH, MT, LP (offset, width, byte order, table, padding) and getDisplayCompID, "
-       "all field values symbolic; UH over all 65536 action-flag words (16 shards); LP target lists for 0..7 targets and 4 name lengths "
-       "(enumerated counts, everything else symbolic); EH for 10 symptom-id lengths.",
+       "all field values symbolic; UH over all 65536 action-flag words (16 shards); LP target lists for 0..7 targets (every count 0..255 in "
+       "the thorough tier: complete) and EH symptom ids, each for ANY length 0..255 of the name / symptom field (symbolic length, text as an "
+       "opaque function of exactly those bytes) plus representative concrete lengths with character-exact NUL stripping.",
   note="Name tables are compared with the pinned snapshot contracts/tables.json. Text fields are assumed ASCII (non-ASCII text raises or decodes "
        "differently: covered by C05). Component-id registry content is environment (A3): two sample environments.",
   assumptions=[PLUGIN_A]),
